@@ -66,12 +66,15 @@ type world struct {
 	late    map[uint64]bool // goroutines of workers that a carried-over call left behind
 	workers map[uint64]bool // every goroutine that reached worker.start so far
 
-	mu        sync.Mutex
-	outcome   map[string]string // href -> "ok" | failure kind, for the current call
-	doneOrd   []string
-	inflight  int
-	quiet     atomic.Bool
-	bigImages bool
+	mu           sync.Mutex
+	outcome      map[string]string // href -> "ok" | failure kind, for the current call
+	doneOrd      []string
+	inflight     int
+	quiet        atomic.Bool
+	stalls       atomic.Int32 // requests that the simulated network leaves unanswered right now
+	mostlyBroken bool
+	brokenKind   int
+	bigImages    bool
 }
 
 func (w *world) fault(kind string) {
@@ -237,7 +240,11 @@ func (t transport) RoundTrip(req *http.Request) (*http.Response, error) {
 		w.res.HarnessError = "RoundTrip for unknown URL " + req.URL.String()
 		return nil, errors.New("unknown url")
 	}
-	opts := []sched.Option{{"200", 8}, {"404", wt(w.fc.http404 && !im.NoFault, 1)}, {"500", wt(w.fc.http500 && !im.NoFault, 1)},
+	ok := 8
+	if w.mostlyBroken && !im.NoFault && (w.fc.http404 || w.fc.http500 || w.fc.netErr) {
+		ok = 1 // a dead host: nearly every request of this run fails
+	}
+	opts := []sched.Option{{"200", ok}, {"404", wt(w.fc.http404 && !im.NoFault, 1)}, {"500", wt(w.fc.http500 && !im.NoFault, 1)},
 		{"neterr", wt(w.fc.netErr && !im.NoFault, 1)}, {"stall", wt(w.fc.stall && !im.NoFault, 1)}, {"oversize", wt(w.fc.oversize && !im.NoFault, 1)}}
 	c := w.sim.Park("http:"+im.Href, opts)
 	mk := func(code int, b io.ReadCloser) *http.Response {
@@ -263,7 +270,9 @@ func (t transport) RoundTrip(req *http.Request) (*http.Response, error) {
 	case 4:
 		w.fault("http_stall_until_timeout")
 		w.setOutcomeCtx(req.Context(), im.Href, "stall")
+		w.stalls.Add(1)
 		<-req.Context().Done()
+		w.stalls.Add(-1)
 		return nil, req.Context().Err()
 	case 5:
 		w.fault("http_oversized_body")
@@ -292,7 +301,11 @@ func (w *world) genImages(tp *tape.Tape, n int) []*img {
 	var out []*img
 	for i := 0; i < n; i++ {
 		im := &img{Kind: "file"}
-		kind := tp.Weighted([]int{5, 4, 1}, "img.kind") // local, remote, data
+		kinds := []int{5, 4, 1} // local, remote, data
+		if w.mostlyBroken {
+			kinds = [][]int{{12, 1, 1}, {1, 12, 1}}[w.brokenKind]
+		}
+		kind := tp.Weighted(kinds, "img.kind")
 		uniq := len(w.imgs)
 		switch kind {
 		case 0:
@@ -309,7 +322,11 @@ func (w *world) genImages(tp *tape.Tape, n int) []*img {
 			}
 			im.NoFault = strings.Contains(name, " ")
 			if !im.NoFault {
-				switch tp.Weighted([]int{8, 1, 1}, "img.exists") {
+				exists := []int{8, 1, 1}
+				if w.mostlyBroken {
+					exists = []int{1, 6, 2}
+				}
+				switch tp.Weighted(exists, "img.exists") {
 				case 1:
 					im.Kind = "missing"
 				case 2:
@@ -580,6 +597,13 @@ func runInBubble(cfg harness.Config, idx int, tp *tape.Tape, dir string, res *ha
 	if w.bigImages && k > 8 {
 		k = 8
 	}
+	// A document full of dead references (a moved asset directory, a dead host): more
+	// references fail in one call than there are workers.
+	w.mostlyBroken = k >= 17 && tp.Chance(1, 2, "cfg.mostlybroken")
+	if w.mostlyBroken {
+		w.brokenKind = tp.Draw(2, "cfg.brokenkind") // nearly all references local, or nearly all remote
+		res.Probe("run_with_mostly_unloadable_references")
+	}
 	pool := w.genImages(tp, k)
 	ncalls := 1 + tp.Weighted([]int{5, 3, 1}, "cfg.calls")
 	cacheOn := tp.Chance(1, 2, "cfg.cache")
@@ -716,6 +740,7 @@ func runInBubble(cfg harness.Config, idx int, tp *tape.Tape, dir string, res *ha
 		sim.Logf("call %d: remote=%v cache=%v refs=%d", ci, cs.Remote, cs.Cache, len(imageRef.FindAll(cs.SVG, -1)))
 		var r ret
 		got := false
+		idleAt := time.Duration(-1)
 		for !got {
 			sim.Quiesce()
 			select {
@@ -731,6 +756,12 @@ func runInBubble(cfg harness.Config, idx int, tp *tape.Tape, dir string, res *ha
 				r = <-done
 				got = true
 				break
+			}
+			if len(sim.ParkedKeys()) == 0 && w.stalls.Load() == 0 && idleAt < 0 {
+				// Quiescent, nothing held at a scheduling point, no request being left
+				// unanswered: nothing of this call is in flight anywhere, and still it has
+				// not returned. Only time can move now.
+				idleAt = sim.Now() - startT
 			}
 			if !sim.Step(true, func(k string) bool { return true }) {
 				// nothing parked, nothing to wait for but time
@@ -816,6 +847,12 @@ func runInBubble(cfg harness.Config, idx int, tp *tape.Tape, dir string, res *ha
 		}
 		timedOut := elapsed >= 5*time.Minute
 		cutShort := cancelled || timedOut
+		if idleAt >= 0 && res.Oracle == "" {
+			// Progress once faults stop: no worker was held at a scheduling point, no request
+			// was stalled, no cancellation was pending - whatever the call still waited for
+			// was inside the bundler itself.
+			res.Fail("C46", "O46.3", "call %d (remote=%v): %v after its start nothing of the call was in flight any more (no worker at a scheduling point, no unanswered request), yet it returned only at %v: the bundler waited for itself (error: %v)", ci, cs.Remote, idleAt, elapsed, r.err)
+		}
 		if timedOut {
 			res.Probe("global_timeout_reached")
 		}
@@ -840,6 +877,9 @@ func runInBubble(cfg harness.Config, idx int, tp *tape.Tape, dir string, res *ha
 		}
 		for _, f := range decoyFails {
 			expectFail[f] = true
+		}
+		if len(expectFail) > 16 {
+			res.Probe("calls_with_more_unloadable_references_than_workers")
 		}
 		if !cutShort {
 			for _, f := range failed {
